@@ -208,7 +208,10 @@ func randomScript(r *rand.Rand, stub bool) []stepT {
 			return []string{"go wtime 0 btime 0", "go wtime 0 btime 5000 movestogo 5", "go wtime 5000 btime 0", "go movestogo 20",
 				"go wtime 30000", "go btime 30000", "go wtime 1 btime 1 movestogo 1", fmt.Sprintf("go depth %d", 1+r.Intn(2)),
 				"go wtime 500 btime 500 winc 10 binc 10", "go nodes 5000 depth 1", "go mate 2 depth 2", "go ponder depth 1",
-				"go searchmoves e2e4 d2d4 depth 1", "go depth 1 nodes 100", "go winc 5 binc 5 wtime 200 btime 200 movestogo 3"}[r.Intn(15)]
+				"go searchmoves e2e4 d2d4 depth 1", "go depth 1 nodes 100", "go winc 5 binc 5 wtime 200 btime 200 movestogo 3",
+				// little on the clock and a large increment; very different clocks for the two sides
+				"go wtime 200 btime 200 winc 20000 binc 20000", "go winc 60000 binc 60000 wtime 50 btime 50 movestogo 2",
+				"go wtime 100 btime 60000", "go wtime 60000 btime 100", "go wtime 40 btime 90000 movestogo 1"}[r.Intn(20)]
 		}
 	}
 	for i := 0; i < n; i++ {
@@ -694,6 +697,23 @@ func ucisched(args []string) {
 				continue
 			}
 			run(d.name, d.steps, d.rules, true, ucih.EngineSpec{Name: "stub"}, 0)
+		}
+	case "clocks":
+		// go commands with clocks, for both sides to move: little time and a large increment, very different
+		// clocks for the two sides, one move to go, a clock for one side only - and random ones
+		lines := []string{"go wtime 200 btime 200 winc 20000 binc 20000", "go winc 60000 binc 60000 wtime 50 btime 50 movestogo 2",
+			"go wtime 100 btime 60000", "go wtime 60000 btime 100", "go wtime 40 btime 90000 movestogo 1", "go wtime 90000 btime 40 movestogo 1",
+			"go wtime 30000", "go btime 30000", "go wtime 1 btime 1 movestogo 1", "go wtime 0 btime 0", "go movestogo 20",
+			"go wtime 1000 btime 1000 winc 1000 binc 1000 movestogo 40", "go binc 5000 winc 5000 btime 10 wtime 10"}
+		for i := 0; i < *n; i++ {
+			lines = append(lines, fmt.Sprintf("go wtime %d btime %d winc %d binc %d movestogo %d", r.Intn(2000), r.Intn(2000), r.Intn(100000), r.Intn(100000), r.Intn(5)))
+		}
+		for i, l := range lines {
+			for _, pos := range []string{"position startpos", "position startpos moves e2e4"} {
+				steps := []stepT{{Kind: "cmd", Arg: pos}, {Kind: "cmd", Arg: l}, {Kind: "release", K: 1, D: 1}, {Kind: "pause", D: 2},
+					{Kind: "cmd", Arg: "stop"}, {Kind: "cmd", Arg: "isready"}}
+				run(fmt.Sprintf("clocks-%d-%v", i, len(pos) > 20), steps, nil, true, ucih.EngineSpec{Name: "stub"}, *delay)
+			}
 		}
 	case "stub":
 		for i := 0; i < *n; i++ {
